@@ -33,7 +33,7 @@ try:
     meta["confirmed"] = ok
     results = {}
     for c in checks:
-        rc, out = sh("VERIF_REPO=%s /verif/check %s --tier quick" % (wt, c))
+        rc, out = sh("VERIF_REPO=%s %s/check %s --tier quick" % (wt, os.environ.get("VERIF_HOME", "/verif"), c))
         line = [l for l in out.split("\n") if l.startswith("VIOLATION") or l.startswith(c + " quick")]
         results[c] = dict(exit=rc, lines=line)
     meta["checks"] = results
